@@ -270,13 +270,26 @@ func symBinop(op token.Token, t types.Type, x, y value) value {
 			return sym{c.Div(a, b), k}
 		}
 	case isIntKind(k):
+		// narrow kinds wrap around exactly (mod 2^w); 64-bit kinds are mathematical integers
+		wrap := func(t *smt.Term) value {
+			w, narrow := widthBits(k)
+			if !narrow {
+				return sym{t, k}
+			}
+			m := c.BigIntC(pow2(uint64(w)))
+			if isUnsignedKind(k) {
+				return sym{c.IMod(t, m), k}
+			}
+			half := c.BigIntC(pow2(uint64(w - 1)))
+			return sym{c.Sub(c.IMod(c.Add(t, half), m), half), k}
+		}
 		switch op {
 		case token.ADD:
-			return sym{c.Add(a, b), k}
+			return wrap(c.Add(a, b))
 		case token.SUB:
-			return sym{c.Sub(a, b), k}
+			return wrap(c.Sub(a, b))
 		case token.MUL:
-			return sym{c.Mul(a, b), k}
+			return wrap(c.Mul(a, b))
 		case token.QUO:
 			if b.IsConst() && b.Val.Sign() == 0 {
 				panic(targetRuntimeError("integer divide by zero"))
